@@ -294,8 +294,31 @@ func c13executor(c *core.Ctx, fn *ssa.Function, writes bool) {
 			c.Sites++
 			op := strings.TrimPrefix(id, "db.DB.")
 			nilEdges := an.SenseEdges(fn, an.ErrResult(call), an.IsNil)
+			opErrs := an.ErrResult(call)
 			hits := an.Ungated(an.CutSpec{Fn: fn, Start: call, GateEdge: nilEdges,
-				GateInstr: func(x ssa.Instruction) bool { _, ok := isAbortCall(x); return ok },
+				GateInstr: func(x ssa.Instruction) bool {
+					if _, ok := isAbortCall(x); !ok {
+						return false
+					}
+					// an abort helper that is handed an error decides on THAT error: it covers this
+					// operation only if the value it receives can be this operation's error
+					// (a shadowed or stale variable would hand it nil)
+					for _, a := range x.(ssa.CallInstruction).Common().Args {
+						if !an.IsErrorType(a.Type()) {
+							continue
+						}
+						carries := false
+						for _, e := range opErrs {
+							if an.MentionsValue(a, e) {
+								carries = true
+							}
+						}
+						if !carries {
+							return false
+						}
+					}
+					return true
+				},
 				Sink:      func(x ssa.Instruction) bool { return x == first(header) }})
 			if len(hits) == 0 {
 				c.OK("C13.a", "DOM", name+":"+op+":error-aborts", c.P.Pos(call.Pos()), "a failure of "+op+" cannot reach the next statement without the abort helper")
